@@ -4,6 +4,10 @@ pub mod cubic;
 pub mod inverse;
 pub mod jacobi;
 pub mod quadratic;
+/// Verification hook H8 (generic forwarding glue for harness-supplied base
+/// fields); see the module documentation.
+#[cfg(feature = "verif-hooks")]
+pub mod verif;
 
 use subtle::{Choice, ConstantTimeEq};
 
